@@ -124,4 +124,8 @@ impl Program {
     pub fn verif_code_len(&self) -> usize {
         self.link.len()
     }
+    pub fn verif_code(&self) -> (Vec<String>, Vec<Val>, Address) {
+        let (ops, data) = self.link.verif_code();
+        (ops, data, self.direct_address)
+    }
 }
